@@ -49,6 +49,9 @@ func NewSparseConstIntVector(indices []int, values []int, n int) SparseConstIntV
   r.indices = indices[0:0]
   r.values = make([]int, 0, len(values))
   for i, k := range indices {
+    if k < 0 {
+      panic("negative index")
+    }
     if k >= n {
       panic("index larger than vector dimension")
     }
